@@ -24,6 +24,15 @@ CHECKS = {
              "single-threaded baseline. Held on the histories, seeds and interleavings observed.",
         note="Hash seeds and interleavings are sampled; the evidence reports switches observed inside overlapping render windows.",
         ref="DESIGN.md section 4 C02"),
+    "C03": dict(
+        technique="engine oracle: sqlite3 EXPLAIN bytecode identity, else execution on generated databases, of the rendered SQL vs an independent fully parenthesised/qualified transcription",
+        text="Seeded random relational programs (joins, subqueries in FROM/IN, GROUP BY/HAVING, DISTINCT, ORDER BY, LIMIT/OFFSET, "
+             "unwrapped set operations, window functions, INSERT values/select/replace, upsert, UPDATE incl. UPDATE..FROM, DELETE) are "
+             "interpreted through the real SQLite dialect classes and by an independent reference writer; on a strict-DQS connection "
+             "identical EXPLAIN programs count as equivalence on all data, otherwise both run on 6/24 generated databases and must "
+             "give the same rows (same sequence under a total ORDER BY) or the same table contents. Held on the programs observed.",
+        note="Trusts the reference writer and SQLite; LIMIT without a total order is compared by row count only (counted).",
+        ref="DESIGN.md section 4 C03"),
     "C04": dict(
         technique="lockstep walk of the token streams of the parameterised and inline renderings (reference lexers); sqlite3 executes both forms",
         text="Every single-value position x value kind x dialect, fixed multi-clause statements (upsert, UPDATE..ORDER BY/LIMIT, "
